@@ -102,6 +102,14 @@ def run(rep, tier, rng):
             ops = [("count",), ("it", -1), ("seek", min(1, n_ok)), ("it", 1), ("it", -1), ("seek", min(1, n_ok)), ("readall",)]
             cases.append(pair_case(calls, ops))
             meta.append((h, calls, ops, code))
+    # the bare ShapeWriter finalized (once or twice, nothing written yet) before `Writer::new` wraps it, then pairs
+    pre_cases, pre_meta = [], []
+    for code in (shapes.ALL_CODES if tier == "thorough" else rng.sample(shapes.ALL_CODES, 4)):
+        a, b = shapes.gen_ctor(rng, code, "small", True, 1, 2), shapes.gen_ctor(rng, code, "small", True, 2, 3)
+        for npre in (1, 2):
+            calls = [(4, [0])] * npre + [(0, a), (0, b), (0, a)]
+            pre_cases.append(pair_case(calls, [("count",), ("it", -1)]))
+            pre_meta.append((code, npre))
     # more than 1024 pairs
     big = [(0, shapes.gen_ctor(rng, 1, "small")) for _ in range(1030)]
     cases.append(pair_case(big, [("count",), ("it", -1)]))
@@ -226,6 +234,14 @@ def run(rep, tier, rng):
     import pathmodel
     import random
     pathmodel.stage(rep, dev, random.Random(rep.seed * 7919 + 8), "c08p", 1, 500 if tier == "thorough" else 140)
+    for c, (code, npre), r in zip(pre_cases, pre_meta, stages.correspondence(rep, "pair_pre", dev, pre_cases, "pair(bare ShapeWriter finalized before Writer::new)", vm_sample=8)):
+        res = parse_pair(r, npre + 3, [("count",), ("it", -1)]) if r not in ([-4], [-2], [2], [-5]) else {}
+        ids = [it[2] for it in res["ops"][1]["items"] if it[0] == "ok"] if "ops" in res else None
+        if res.get("counts") != (3, 3, 3) or ids != [npre, npre + 1, npre + 2]:
+            nfail += 1
+            rep.violation({"kind": "oracle", "what": "ShapeWriter finalized %d time(s) before any shape, then wrapped by Writer::new, three pairs written: entry counts %r, "
+                           "pairs read back carry the rows %r" % (npre, res.get("counts"), ids), "case_kind": "pair", "case": c[:200]})
+            break
     rep.cov["known_finding_F10_cases"] = f10
     rep.sample({"history": "".join(meta[17][0]), "alphabet": "a,b = acceptable pairs; x = shape of another type; m,t = rejected rows"})
     rep.cov["oracle"] = {"checked": len(cases), "failing": nfail}
